@@ -24,7 +24,11 @@ func sequenceCase(c *run.Ctx) run.Result {
 	defer flushStats(&res)
 	r := c.SubRng(3)
 	// the plan: C = constrained, P = plain
-	plans := []string{"CP", "CPP", "PCP", "CCP", "CPCP", "PPCPP", "CPCCP", "CcP", "PPPP", "PCPPP", "CPPCP", "PPPPPP"}
+	// D (round 7): a call on a DEGENERATE input - fewer than 3 points, all collinear, all equal, duplicates of a
+	// good set, NaN / infinite coordinates, exactly co-circular or grid points. Its result is not judged (the
+	// property speaks of points in general position), but whatever it leaves behind must not reach the plain
+	// calls that follow.
+	plans := []string{"CP", "CPP", "PCP", "CCP", "CPCP", "PPCPP", "CPCCP", "CcP", "PPPP", "PCPPP", "CPPCP", "PPPPPP", "DP", "PDP", "CDP", "DDPP", "PDCP"}
 	plan := plans[c.Case%len(plans)]
 	if r.Intn(4) == 0 {
 		plan = plans[r.Intn(len(plans))]
@@ -40,6 +44,26 @@ func sequenceCase(c *run.Ctx) run.Result {
 	var keep keeper
 	for step, kind := range plan {
 		nCall := sizes[step%len(sizes)]
+		if kind == 'D' {
+			pts, what := degenerateInput(r, nCall)
+			c.Note(fmt.Sprintf("step %d degenerate input (%s), result not judged", step, what))
+			constrained := r.Intn(4) == 0
+			if p := run.Try(func() {
+				if constrained {
+					_ = triangulation.ConstrainedBowyerWatson(pts, []triangulation.Constraint{triangulation.NewConstraint([]vector2.Float64{vector2.New(0.2, 0.2), vector2.New(0.8, 0.25), vector2.New(0.5, 0.9)})})
+				} else {
+					_ = triangulation.BowyerWatson(pts)
+				}
+			}); p != nil {
+				res.Count("degenerate_calls_that_panicked", 1)
+			}
+			res.Count("degenerate_calls_before_a_judged_call", 1)
+			res.SetAdd("degenerate_input_kinds", what)
+			if !keep.recheck(&res, fmt.Sprintf("call %d (degenerate input: %s)", step+1, what), len(keep.all), 2, r) {
+				return res
+			}
+			continue
+		}
 		switch kind {
 		case 'C', 'c':
 			// a point cloud and one or two outlines through its middle
@@ -163,4 +187,73 @@ func sequenceCase(c *run.Ctx) run.Result {
 		res.Sample = map[string]any{"plan": plan, "last_plain_workload": w}
 	}
 	return res
+}
+
+// degenerateInput draws an input outside the property's domain (see plan letter D).
+func degenerateInput(r interface {
+	Intn(int) int
+	Float64() float64
+}, n int) ([]vector2.Float64, string) {
+	n = imax(4, n)
+	pts := make([]vector2.Float64, 0, 2*n)
+	switch r.Intn(9) {
+	case 0:
+		k := r.Intn(3)
+		for i := 0; i < k; i++ {
+			pts = append(pts, vector2.New(r.Float64(), r.Float64()))
+		}
+		return pts, "fewer than 3 points"
+	case 1:
+		dx, dy := r.Float64()-0.5, r.Float64()-0.5
+		for i := 0; i < n; i++ {
+			pts = append(pts, vector2.New(float64(i)*dx, float64(i)*dy))
+		}
+		return pts, "all collinear"
+	case 2:
+		x, y := r.Float64(), r.Float64()
+		for i := 0; i < n; i++ {
+			pts = append(pts, vector2.New(x, y))
+		}
+		return pts, "all equal"
+	case 3:
+		for i := 0; i < n; i++ {
+			pts = append(pts, vector2.New(r.Float64(), r.Float64()))
+		}
+		pts = append(pts, pts[:n/2+1]...)
+		return pts, "duplicated points"
+	case 4, 5:
+		for i := 0; i < n; i++ {
+			pts = append(pts, vector2.New(r.Float64(), r.Float64()))
+		}
+		bad, what := math.NaN(), "NaN coordinate"
+		if r.Intn(2) == 0 {
+			bad, what = math.Inf(1-2*r.Intn(2)), "infinite coordinate"
+		}
+		k := r.Intn(n)
+		if r.Intn(2) == 0 {
+			pts[k] = vector2.New(bad, pts[k].Y())
+		} else {
+			pts[k] = vector2.New(pts[k].X(), bad)
+		}
+		return pts, what
+	case 6:
+		for i := 0; i < 4; i++ {
+			a := float64(i) * math.Pi / 2
+			pts = append(pts, vector2.New(math.Round(math.Cos(a)), math.Round(math.Sin(a))))
+		}
+		return pts, "exactly co-circular"
+	case 7:
+		k := 2 + r.Intn(5)
+		for i := 0; i < k; i++ {
+			for j := 0; j < k; j++ {
+				pts = append(pts, vector2.New(float64(i), float64(j)))
+			}
+		}
+		return pts, "exact grid"
+	default:
+		for i := 0; i < n; i++ {
+			pts = append(pts, vector2.New(1e300*(r.Float64()-0.5), 1e-300*r.Float64()))
+		}
+		return pts, "coordinates near the ends of the float range"
+	}
 }
